@@ -26,7 +26,7 @@ ASSUMPTIONS = [
     'attribute values are single-line strings',
 ]
 HOOKS = ['writer.return', 'text.parse', 'reader.return', 'auto.return',
-         'second-cycle.return']
+         'second-cycle.return', 'edited-cycle.return']
 MIN_DISTINCT = {'quick': 200, 'thorough': 4000}
 N = {'quick': 400, 'thorough': 8000}
 JOBS = {'quick': 8}
@@ -54,6 +54,9 @@ def gen(rng, idx, tier, seed):
             else float(rng.choice([1.0, 50.0, 1e3, 1e-3])),
             'mask': str(rng.choice(['none', 'some', 'some', 'all'])),
             'boundary': bool(rng.random() < 0.2),
+            # valid values that differ from the variable's missing code only
+            # in the sixth/seventh significant digit
+            'nearcode': bool(rng.random() < 0.25),
         })
     ncom = int(rng.integers(0, 9))
     return {'nrec': nrec, 'vars': vars_, 'seed': int(rng.integers(1 << 30)),
@@ -89,6 +92,12 @@ def build(spec):
                 rng.normal(0, 1, n) + 0.1)
         if n > 2:
             vals[int(rng.integers(n))] = 0.0
+        if vs.get('nearcode') and n > 1:
+            code = float(vs['code'])
+            near = code * (1 - 3e-6) if code != 0 else 5e-9
+            vals[int(rng.integers(n))] = near
+            vals[int(rng.integers(n))] = code * (1 + 4e-6) if code != 0 \
+                else -5e-9
         if vs['mask'] == 'none':
             m = np.zeros(n, bool)
         elif vs['mask'] == 'all':
@@ -282,6 +291,25 @@ def run(spec, res):
                 c2 = compare(after, after2, 'Start_UTC', 'second cycle',
                              strict_indep_units=True)
                 problems += c2
+                if not c2:
+                    # a file read from ICARTT, edited, written again: the
+                    # output must carry the edited units
+                    p3 = os.path.join(d, 'c.ict')
+                    g2.variables['Start_UTC'].units = 'hours'
+                    dk = spec['vars'][0]['name']
+                    g2.variables[dk].units = 'edited_unit'
+                    o = ncf2ffi1001(g2, p3)
+                    o.close()
+                    g3 = ffi1001(p3)
+                    res.hook('edited-cycle.return')
+                    for k, want in (('Start_UTC', 'hours'),
+                                    (dk, 'edited_unit')):
+                        gotu = str(getattr(g3.variables[k], 'units',
+                                           None)).strip()
+                        if gotu != want:
+                            problems.append(
+                                'edited cycle: %s units set to %r before '
+                                'writing, read back %r' % (k, want, gotu))
             except Exception as e:
                 res.hook('second-cycle.return')
                 problems.append('second write/read cycle raised %r' % (e,))
